@@ -183,7 +183,10 @@ class ProjCtx(JobCtx):
         raise Unsupported("json.loads of this value")
 
     def x_json_dumps(self, interp, v, **k):
-        if isinstance(v, SCache) and not k:
+        if isinstance(v, SCache):
+            if k:
+                # an encoder option (default=, skipkeys=, a custom cls): what is written is no longer the strict JSON text of the cache
+                self.ghost["cache_dump_options"] = sorted(k)
             return SDump(v.dom, v.val)
         raise Unsupported("json.dumps of this value")
 
@@ -974,7 +977,7 @@ def stub_update_in_memory_cache(interp, b):
 
 class UpdateCache(PContract):
     target = f"{PRJ}.Project.update_cache"
-    properties = ("C08", "C09", "C10")
+    properties = ("C01", "C08", "C09", "C10")
     shard_bits = 2
     callees = {f"{PRJ}.Project._read_cache": stub_read_cache, f"{PRJ}.Project._update_in_memory_cache": stub_update_in_memory_cache}
 
@@ -1023,6 +1026,10 @@ class UpdateCache(PContract):
             ex.assume(FA_id(lambda i: Darr[i] == fs0.dirs[JD.mk(p, i)]))
         D = lambda i: Darr[i]
         ex.oblige(self.oname("frame:job_directories_untouched"), z3.And(fs.dirs == fs0.dirs, fs.ent == fs0.ent, fs.ws == fs0.ws))
+        # the file is trusted by later sessions (open_job by id takes a cached state point as the job's): what goes into it is the strict
+        # JSON text of the cache -- a value that is not JSON is refused (TypeError), never replaced by some text standing in for it
+        ex.oblige(self.oname("ensures:the_cache_file_is_the_strict_JSON_encoding_of_the_cache_(no_fallback_for_values_that_are_not_JSON)"),
+                  z3.BoolVal("cache_dump_options" not in ctx.ghost), note=str(ctx.ghost.get("cache_dump_options")))
         if outcome[0] == "return":
             d = Node.data(n)
             exact = z3.And(Node.is_File(n), cache_ok(d), cache_domA(d) == Darr, FA_id(lambda i: z3.Implies(D(i), CALC(cache_val(d, i)) == i)))
@@ -1132,6 +1139,9 @@ class ProjRepair(PContract):
                                                      z3.And(z3.Not(fs.dirs[kj]), fs.dirs[kc], same_data(fs.ent[kc], fs0.ent[kj])))))
             ex.oblige(self.oname("body:an_occupied_correct_directory_is_never_clobbered"),
                       z3.Implies(z3.And(kc != kj, fs0.dirs[kc], fs0.ent[kc] != EMPTY), same_data(fs.ent[kc], fs0.ent[kc])))
+            # C11 "never forge a job": when the move of a mis-keyed directory fails, nothing is created under the correct id either
+            ex.oblige(self.oname("body:a_directory_under_the_correct_id_comes_into_being_only_by_moving_the_job_there_(no_empty_job_is_forged_when_the_move_fails)"),
+                      z3.Implies(z3.And(kc != kj, z3.Not(fs0.dirs[kc]), fs.dirs[kc]), z3.Not(fs.dirs[kj])))
 
         return {"job_ids": LoopSpec("jobs", inv, havoc={"$fs": hv_fs, "corrupted": hv_bag},
                                     scratch=("job_id", "statepoint", "correct_id", "invalid_wd", "correct_wd", "job", "error", "error2"), heap_frame=lambda i, f, w: body_post(i, f, w))}
